@@ -136,7 +136,7 @@ def make_real_driver(kind, tname, device, policy=("whole",), fault=None, **kw):
     t = d.transport
     if type(t).__module__.split(".")[-2] != tname:
         raise ValueError("driver did not pick the %s transport plugin: %r" % (tname, type(t)))
-    pipe = (Pipe if stack == "sync" else APipe)(device, policy, fault)
+    d._c12_pipe = (Pipe if stack == "sync" else APipe)(device, policy, fault)
     if stack == "sync":
         def _open():
             if tname == "system":
@@ -145,10 +145,14 @@ def make_real_driver(kind, tname, device, policy=("whole",), fault=None, **kw):
                 if not hasattr(t, "_build_open_cmd"):
                     raise ValueError("c12_rt: SystemTransport builds its command line differently (no _build_open_cmd)")
                 t._build_open_cmd()
-            attach(t, tname, pipe)
+            attach(t, tname, d._c12_pipe)
     else:
         async def _open():
-            attach(t, tname, pipe)
+            attach(t, tname, d._c12_pipe)
     t.open = _open
-    d._c12_pipe = pipe
     return d
+
+
+def reconnect(d, tname, device, policy=("whole",)):
+    """the next open() of this driver attaches a fresh endpoint in front of `device` (a new session of the device)"""
+    d._c12_pipe = (Pipe if TRANSPORTS[tname][0] == "sync" else APipe)(device, policy, None)
